@@ -87,10 +87,11 @@ class G:
         if rnd.random() < 0.2:
             self.glob = "g_%s" % uid
             self.cls[self.glob] = "obj"
+        self.assigned = {}       # var -> set of value kinds actually assigned ('num', 'ucs4', 'obj')
         self.extra = []          # k*, e*, w*, m* names introduced by constructs
         self.in_loop = 0
         self.in_match = 0        # a def inside a match case produces C code that does not compile (C43/C31 candidate)
-        self.max_stmts = 24
+        self.max_stmts = 16
 
     def pick(self, seq):
         seq = list(seq)
@@ -113,8 +114,26 @@ class G:
     def value(self, v):
         self.nval += 1
         if self.cls.get(v, "obj") == "num":
+            self.assigned.setdefault(v, set()).add("num")
             return str(self.nval)
+        self.assigned.setdefault(v, set()).add("obj")
         return "'s%d'" % self.nval
+
+    def final_classes(self):
+        """value class per variable from what the program really assigns: C-inferable if only int literals /
+        range targets ('num') or only 1-character strings ('ucs4')"""
+        out = {}
+        for v in self.allvars():
+            kinds = self.assigned.get(v, set())
+            if not kinds:
+                out[v] = "none"
+            elif "obj" in kinds:
+                out[v] = "obj"
+            elif kinds == {"ucs4"}:
+                out[v] = "ucs4"
+            else:
+                out[v] = "num"
+        return out
 
     # -- primitive statements
     def s_assign(self, ind):
@@ -144,8 +163,23 @@ class G:
                     ind + "except NameError as ex_:", ind + "    UB(%d, ex_)" % rid]
         return [ind + "AT(%d)" % rid, ind + "del %s" % v]
 
+    def s_walrus(self, ind):
+        """binding through a walrus that sits in one branch of a conditional expression / boolean operator"""
+        v = self.pick(self.vars)
+        self.feats.add("walrus")
+        val = self.value(v)
+        form = self.r.randint(0, 2)
+        g = self.bit()
+        if form == 0:
+            return [ind + "tmp_ = 'A' if %s else (%s := %s)" % (g, v, val)]
+        if form == 1:
+            return [ind + "tmp_ = (%s) and (%s := %s)" % (g, v, val)]
+        return [ind + "tmp_ = [(%s := %s) for i_ in range(%s)]" % (v, val, "(%s) and 1" % g)]
+
     def simple(self, ind):
         c = self.r.randint(0, 9)
+        if c == 3 and self.chance(0.6):
+            return self.s_walrus(ind)
         if c <= 3:
             return self.s_assign(ind)
         if c <= 7:
@@ -197,6 +231,7 @@ class G:
                 k = self.pick(self.vars)
                 if not it.startswith("range") and self.cls[k] == "num":
                     self.cls[k] = "obj"    # int literals and 1-char strings mixed: a Python object
+            self.assigned.setdefault(k, set()).add("num" if it.startswith("range") else "ucs4")
             lines = [ind + "for %s in %s:" % (k, it)]
             self.in_loop += 1
             lines += self.block(i2, depth + 1)
@@ -233,6 +268,8 @@ class G:
                     if self.chance(0.2):
                         e = self.pick(self.vars)      # `except EA as v0` also unbinds v0 afterwards
                         self.cls[e] = "obj"
+                if e:
+                    self.assigned.setdefault(e, set()).add("obj")
                 lines += [ind + "except EA%s:" % ((" as " + e) if e else "")]
                 body = self.block(i2, depth + 1)
                 if e and self.chance(0.5):
@@ -251,6 +288,7 @@ class G:
             if w not in self.extra:
                 self.extra.append(w)
                 self.cls[w] = "obj"
+            self.assigned.setdefault(w, set()).add("obj")
             fail = "bool(%s)" % self.bit() if self.chance(0.5) else "False"
             lines = [ind + "try:", i2 + "with CM(%s) as %s:" % (fail, w)] + self.block(i2 + "    ", depth + 1)
             lines += [ind + "except EA:", i2 + "LOG.append('with-failed')"]
@@ -261,6 +299,7 @@ class G:
             if m not in self.extra:
                 self.extra.append(m)
                 self.cls[m] = "num"
+            self.assigned.setdefault(m, set()).add("num")
             b = self.bit()
             sh = int(b.split("&")[1]).bit_length() - 1
             lines = [ind + "match (x >> %d) & %d:" % (max(0, sh - 1), 3)]
@@ -340,7 +379,7 @@ def function_item(draw, uid="UID"):
             c["pre"] = "M.%s = 'ginit'" % g.glob
     src = "\n".join(pre + lines)
     return {"src": src, "cases": cases,
-            "meta": {"features": sorted(g.feats), "bits": nb, "cls": g.cls, "has_del": "del" in g.feats or "nonlocal-del" in g.feats}}
+            "meta": {"features": sorted(g.feats), "bits": nb, "cls": g.final_classes(), "has_del": "del" in g.feats or "nonlocal-del" in g.feats}}
 
 
 def draw_items(k, seed, parts, prefix):
